@@ -77,6 +77,7 @@ fn main() {
     "jws_binding" => jws::binding(&cex),
     "jws_policy" => jws::policy(&cex),
     "state_metadata" => iota::state_metadata(&cex),
+    "iota_did" => iota::iota_did(&cex),
     "did_syntax" => did::syntax(&cex),
     "credential_validation" => cred::credential_validation(&cex),
     "presentation_validation" => cred::presentation_validation(&cex),
